@@ -452,6 +452,13 @@ func (e *env) call(v *ast.CallExpr) (string, gty) {
 			if at, ok := v.Args[0].(*ast.ArrayType); ok && at.Len == nil && len(v.Args) == 2 && e.t.p.str(at.Elt) == "uint32" && e.t.p.str(v.Args[1]) == "0" {
 				return "([] : List Int)", tIntList
 			}
+			// make([]*T, n): n nil pointers
+			if at, ok := v.Args[0].(*ast.ArrayType); ok && at.Len == nil && len(v.Args) == 2 {
+				if _, isPtr := at.Elt.(*ast.StarExpr); isPtr {
+					n, _ := e.expr(v.Args[1])
+					return "(List.replicate (Int.toNat " + n + ") false)", tPtrList
+				}
+			}
 			e.fail("make of %s", e.t.p.str(v.Args[0]))
 		case "append":
 			if len(v.Args) == 2 {
@@ -738,6 +745,11 @@ func (e *env) assigned(stmts []ast.Stmt, out map[string]bool) {
 					out[e.rname] = true
 				}
 			case *ast.CallExpr:
+				if e.t.p.str(v.Fun) == "copy" && len(v.Args) == 2 {
+					if id, ok := v.Args[0].(*ast.Ident); ok {
+						out[id.Name] = true
+					}
+				}
 				txt := e.t.p.str(v.Fun)
 				if txt == "atomic.StoreUint32" || txt == "atomic.AddUint32" {
 					out[e.rname] = true
@@ -974,6 +986,20 @@ func (e *env) block(stmts []ast.Stmt, fall string, ind string) string {
 					}
 				}
 				sb.WriteString(fmt.Sprintf("%slet ev := %q\n", ind, e.t.p.str(call.Args[0])+"|"+msg))
+				continue
+			}
+			if txt == "copy" && len(call.Args) == 2 {
+				// copy(dst, src) on slices of pointers: the first min(len dst, len src) elements
+				did, ok := call.Args[0].(*ast.Ident)
+				if !ok || e.vars[did.Name] != tPtrList {
+					e.fail("copy into %s", e.t.p.str(call.Args[0]))
+				}
+				src, sty := e.expr(call.Args[1])
+				if sty != tPtrList {
+					e.fail("copy from %s", e.t.p.str(call.Args[1]))
+				}
+				d := e.lnames[did.Name]
+				sb.WriteString(fmt.Sprintf("%slet %s := (%s.take %s.length) ++ (%s.drop %s.length)\n", ind, d, src, d, d, src))
 				continue
 			}
 			if nm, ok := e.f.calls[txt]; ok && len(call.Args) <= 1 {
@@ -1712,6 +1738,9 @@ func transAll(v1, v2 *pkg) string {
 		{file: "shared-resource.go", recv: "sharedResource", name: "clearPartitionId", lean: "v2_sr_clearPartitionId"},
 		{file: "shared-resource.go", recv: "sharedResource", name: "getAllocatedAndRandomUnallocatedPartition", lean: "v2_sr_pick", opaque: true},
 		{file: "shared-resource.go", recv: "sharedResource", name: "Start", lean: "v2_sr_requirements", until: "r.provision = make", view: "_req"},
+		{file: "shared-resource.go", recv: "sharedResource", name: "scheduleProvision", lean: "v2_sr_scheduleProvision", view: "_prov", chanCap: map[string]string{"provision": "1"}},
+		{file: "shared-resource.go", recv: "sharedResource", name: "SetSharedCapacity", lean: "v2_sr_SetSharedCapacity", view: "_prov", chanCap: map[string]string{"provision": "1"}},
+		{file: "shared-resource.go", recv: "sharedResource", name: "provisionBlobs", lean: "v2_sr_reprovision", sliceFrom: "sharedCapacity", sliceN: 8, sliceOut: []string{"count"}},
 		{file: "shared-resource.go", recv: "sharedResource", name: "provisionBlobs", lean: "v2_sr_partitionCount", sliceFrom: "sharedCapacity", sliceN: 3, sliceOut: []string{"count"}},
 	}, &sb)
 	sb.WriteString("end GoBatcher.Trans\n")
